@@ -361,7 +361,11 @@ def rule_G(ctx):
         'co_min': lambda vs: min(vs) if vs else NANV, 'co_max': lambda vs: max(vs) if vs else NANV,
         'co_avg': lambda vs: sum(vs) / len(vs) if vs else NANV, 'co_median': lambda vs: median(vs) if vs else NANV,
     }
-    lists = [list(t_) for L in range(0, 6 if ctx.tier == 'thorough' else 5) for t_ in itertools.product((NANV, 1.0, 3.0, -2.0), repeat=L)]
+    # the NaN values of the data are NOT the module's NAN object (NaN read from a file, produced by arithmetic or by numpy is another object)
+    DNAN = float('nan')
+    assert DNAN is not NANV
+    lists = [list(t_) for L in range(0, 6 if ctx.tier == 'thorough' else 5) for t_ in itertools.product((DNAN, 1.0, 3.0, -2.0), repeat=L)]
+    lists += [[NANV, 1.0, DNAN], [NANV], [NANV, NANV, 2.0]]
     for name, orc in oracle.items():
         f = ctx.prog.maybe_func(UT + '.' + name)
         if f is None:
@@ -523,8 +527,8 @@ def rule_G(ctx):
             return self.tracks[i]
     ext, res = (0.0, 30.0, 0.0, 20.0), (10.0, 10.0)
     layouts = {
-        'two tracks with different uids': [(1, [(5, 5), (15, 5), (15, 15), (25, 15)], [1.0, 2.0, NANV, 4.0]), (2, [(5, 5), (5, 15), (25, 15)], [10.0, 20.0, 30.0])],
-        'three tracks sharing one uid, their i-th fixes in different cells': [(0, [(5, 5), (15, 5)], [1.0, 2.0]), (0, [(25, 15), (5, 15)], [5.0, 7.0]), (0, [(15, 15), (15, 15)], [NANV, 9.0])],
+        'two tracks with different uids': [(1, [(5, 5), (15, 5), (15, 15), (25, 15)], [1.0, 2.0, DNAN, 4.0]), (2, [(5, 5), (5, 15), (25, 15)], [10.0, 20.0, 30.0])],
+        'three tracks sharing one uid, their i-th fixes in different cells': [(0, [(5, 5), (15, 5)], [1.0, 2.0]), (0, [(25, 15), (5, 15)], [5.0, 7.0]), (0, [(15, 15), (15, 15)], [DNAN, 9.0])],
     }
     aggs = ['co_median', 'co_count', 'co_sum', 'co_min', 'co_max', 'co_avg']      # the median first: the later maps read the same per-cell lists
     nodata = ctx.prog.module(RAS).consts.get('NO_DATA_VALUE')
